@@ -9,9 +9,11 @@ pub mod c01;
 pub mod c02;
 pub mod c03;
 pub mod c04;
+pub mod c05;
 pub mod c06;
 pub mod c07;
 pub mod c08;
+pub mod c10;
 pub mod c13;
 pub mod common;
 
@@ -73,6 +75,8 @@ pub fn check(prop: &str, r: &RunResult) -> Report {
 		"C01" => c01::check(r, &mut rep),
 		"C02" => c02::check(r, &mut rep),
 		"C04" => c04::check(r, &mut rep),
+		"C05" => c05::check(r, &mut rep),
+		"C10" => c10::check(r, &mut rep),
 		"C13" => c13::check(r, &mut rep),
 		"C03" => c03::check(r, &mut rep),
 		"C06" => c06::check(r, &mut rep),
